@@ -2,6 +2,7 @@ package rules
 
 import (
 	"fmt"
+	"strings"
 
 	"golang.org/x/tools/go/ssa"
 
@@ -18,7 +19,7 @@ func init() {
 			"(whole module in the thorough tier). (S2 co-update) txByHashMap: a successful SetIfAbsent is accompanied by counter.Increment and numBytes.Add, a successful Remove by Decrement and Subtract; " +
 			"txListForSender: every list insertion is accompanied by onAddedTransaction(tx) and every list removal by onRemovedListElement(e) on the same element. " +
 			"(S3) both indexes are updated together in AddTx, RemoveTxByHash and doEvictItems, and transactions evicted from a sender's list are removed from the by-hash index. " +
-			"Not decided (value-level): ordering by nonce/gas price, score arithmetic; lock discipline is not part of this property; txByHashMap.clear (outside the property's operation alphabet) is not armed.",
+			"Not decided (value-level): ordering by nonce/gas price, score arithmetic; lock discipline is not part of this property. Added in the second seeding round: every method of txByHashMap that changes the map's population or one counter updates both counters (clear included - a genuine defect, repaired); every return of txListForSender.AddTx after an insertion lies behind applySizeConstraints and reports its evictions; sweepSweepable resets the collected senders after evicting them.",
 		Run: runC25,
 	})
 }
@@ -140,7 +141,42 @@ func runC25(c *core.Ctx) {
 				"removeTx can report a removal without "+op[0]+"."+op[1]+": "+c.P.PathString(path))
 		}
 	}
-	c.Floor("C25/by-hash-counters-co-updated", 6)
+	// pairing: any method of txByHashMap that changes the map's population (Set*/Remove/Clear on
+	// the backing map) or one of the two counters changes both counters
+	for _, fn := range c.P.FuncsOfPkg(pkg) {
+		if fn.Signature.Recv() == nil || !strings.HasSuffix(fn.Signature.Recv().Type().String(), "txByHashMap") {
+			continue
+		}
+		touched := map[string]bool{}
+		population := false
+		core.Instrs(fn, func(in ssa.Instruction) {
+			cc := core.CallOf(in)
+			if cc == nil || len(cc.Args) == 0 {
+				return
+			}
+			d := core.CallDesc(cc)
+			if fa, ok := cc.Args[0].(*ssa.FieldAddr); ok {
+				f := core.FieldOfAddr(fa).Name()
+				if (f == "counter" || f == "numBytes") && d.Name != "Get" && d.Name != "GetUint64" {
+					touched[f] = true
+				}
+			}
+			if v, f := core.FieldLoad(cc.Args[0]); f != nil && f.Name() == "backingMap" && v != nil {
+				switch d.Name {
+				case "Set", "SetIfAbsent", "Remove", "Clear":
+					population = true
+				}
+			}
+		})
+		if !population && len(touched) == 0 {
+			continue
+		}
+		c.Analysed(fname(fn))
+		c.Check(touched["counter"] && touched["numBytes"], "C25/by-hash-counters-co-updated", fname(fn)+"/both-counters", fn.Pos(),
+			"changes the population of the by-hash map and updates both the transaction counter and the byte counter",
+			fmt.Sprintf("changes the population of the by-hash map but updates counter=%v numBytes=%v: CountTx()/NumBytes() no longer match the contents", touched["counter"], touched["numBytes"]))
+	}
+	c.Floor("C25/by-hash-counters-co-updated", 9)
 
 	// txListForSender: list insert/remove paired with the totals callbacks
 	for _, fn := range c.P.FuncsOfPkg(pkg) {
@@ -173,6 +209,7 @@ func runC25(c *core.Ctx) {
 	c.Floor("C25/sender-list-totals-co-updated", 4)
 
 	// ---- S3
+	c25LimitsAndSweep(c)
 	if fn := anchorM(c, pkg, "TxCache", "AddTx"); fn != nil {
 		tx := fn.Params[1]
 		okRet := func(in ssa.Instruction, _ *ssa.BasicBlock) bool {
@@ -250,4 +287,96 @@ func runC25(c *core.Ctx) {
 		}
 	}
 	c.Floor("C25/both-indexes-updated", 7)
+}
+
+// c25LimitsAndSweep: (a) every insertion into a sender's list is followed by the size
+// constraints, and what they evicted is what AddTx reports (the caller removes exactly those from
+// the by-hash index); (b) a sweep forgets the senders it evicted.
+func c25LimitsAndSweep(c *core.Ctx) {
+	const pkg = "storage/txcache"
+	if fn := anchorM(c, pkg, "txListForSender", "AddTx"); fn != nil {
+		c.Analysed(fname(fn))
+		isInsert := func(in ssa.Instruction) bool {
+			cc := core.CallOf(in)
+			if cc == nil || cc.StaticCallee() == nil {
+				return false
+			}
+			n := cc.StaticCallee().Name()
+			return (n == "PushFront" || n == "PushBack" || n == "InsertAfter" || n == "InsertBefore") && cc.StaticCallee().Pkg != nil && cc.StaticCallee().Pkg.Pkg.Path() == "container/list"
+		}
+		var apply *ssa.Call
+		isApply := func(in ssa.Instruction) bool {
+			cc := core.CallOf(in)
+			if cc != nil && cc.StaticCallee() != nil && cc.StaticCallee().Name() == "applySizeConstraints" {
+				apply, _ = in.(*ssa.Call)
+				return true
+			}
+			return false
+		}
+		k := 0
+		core.Instrs(fn, func(in ssa.Instruction) {
+			if !isInsert(in) {
+				return
+			}
+			k++
+			esc, path := core.PathQ{Fn: fn, From: in, Via: isApply, Target: core.AnyReturn}.Escape()
+			c.Check(esc == nil, "C25/limits-applied-after-every-insertion", fmt.Sprintf("txListForSender.AddTx/insert#%d", k), in.Pos(),
+				"every return after the insertion lies behind applySizeConstraints",
+				"AddTx can return after inserting without applying the per-sender limits ("+c.P.PathString(path)+"): the sender's list grows beyond its count/byte limits")
+		})
+		// the reported evictions are the ones applySizeConstraints made
+		okEv := true
+		for _, r := range core.Returns(fn) {
+			if b, isB := core.ConstBool(core.RetOperand(r, 0)); isB && !b {
+				continue
+			}
+			v := core.RetOperand(r, 1)
+			if apply == nil || !core.BackwardReachPure(v)[apply] {
+				okEv = false
+			}
+		}
+		c.Check(okEv, "C25/limits-applied-after-every-insertion", "txListForSender.AddTx/evicted-reported", fn.Pos(),
+			"an accepted AddTx returns the hashes applySizeConstraints evicted",
+			"an accepted AddTx does not return the hashes evicted by applySizeConstraints: the caller cannot remove them from the by-hash index, which keeps transactions no sender list holds")
+		c.Floor("C25/limits-applied-after-every-insertion", 3)
+	}
+	if fn := anchorM(c, pkg, "TxCache", "sweepSweepable"); fn != nil {
+		c.Analysed(fname(fn))
+		lst := c.P.Field(pkg, "TxCache", "sweepingListOfSenders")
+		var evict ssa.Instruction
+		for _, in := range core.CallsIn(fn, func(in ssa.Instruction, cc *ssa.CallCommon) bool {
+			return cc.StaticCallee() != nil && cc.StaticCallee().Name() == "evictSendersAndTheirTxs"
+		}) {
+			evict = in
+		}
+		if evict == nil || lst == nil {
+			c.Undecided("C25/swept-senders-forgotten", "TxCache.sweepSweepable", fn.Pos(), "the eviction call or the sweeping list field was not found")
+		} else {
+			resets := func(in ssa.Instruction) bool {
+				if st, ok := in.(*ssa.Store); ok {
+					if fa, ok := st.Addr.(*ssa.FieldAddr); ok && core.FieldOfAddr(fa) == lst {
+						return true
+					}
+				}
+				cc := core.CallOf(in)
+				if cc == nil || cc.StaticCallee() == nil {
+					return false
+				}
+				// a callee of the package that assigns the field
+				hit := false
+				core.Instrs(cc.StaticCallee(), func(in2 ssa.Instruction) {
+					if st, ok := in2.(*ssa.Store); ok {
+						if fa, ok := st.Addr.(*ssa.FieldAddr); ok && core.FieldOfAddr(fa) == lst {
+							hit = true
+						}
+					}
+				})
+				return hit && in != evict
+			}
+			esc, path := core.PathQ{Fn: fn, From: evict, Via: resets, Target: core.AnyReturn}.Escape()
+			c.Check(esc == nil, "C25/swept-senders-forgotten", "TxCache.sweepSweepable", evict.Pos(),
+				"after the collected senders were evicted the collection is reset before the function returns",
+				"the collected senders are evicted but the collection is not reset ("+c.P.PathString(path)+"): the next sweep evicts the same sender keys and hashes again, removing lists and transactions added since (the by-hash index and the sender index diverge)")
+		}
+	}
 }
